@@ -102,7 +102,9 @@ CLAIMS = {
     "C01": {
         "text": "Claimed compositionally: every stepping call of the sans-IO API is shown, by the step harnesses of C02/C03/C04/C07/C08, "
                 "to be a function of (state, offered window, output capacity) that consumes / produces a prefix and re-establishes "
-                "the representation invariant, and the read-only queries are shown not to change writer, reader or flags. "
+                "the representation invariant; the read-only queries are shown not to change writer, reader or flags; presenting a window to "
+                "the length-delimited reader / sized writer in one piece or in two is shown to give the same totals, bytes and state; incomplete "
+                "interim heads are shown to decide nothing. "
                 "Independence of whole exchanges from the slicing follows by induction over calls (paper argument in DESIGN.md §3 C01); "
                 "no whole-exchange formula is solved.",
         "design_ref": "DESIGN.md §3 C01",
